@@ -459,6 +459,8 @@ ENGINE_MATRIX = [
     (1, 'none', 'ED_block', False, 'full', False, 'conv', None),
     (1, 'sub', 'arpack', False, 'trunc', False, 'conv', None),
     (1, 'sub', 'default', False, 'full', True, 'conv', None),
+    (2, 'sub', 'lanczos', False, 'full', True, 'conv', None),
+    (1, 'sub', 'ED_block', True, 'trunc', True, 'short', None),
     (1, 'none', 'lanczos', True, 'full', False, 'conv', None),
     (1, 'none', 'lanczos', True, 'full', True, 'conv', None),
     (1, 'dm', 'lanczos', True, 'list', False, 'conv', None),
